@@ -131,7 +131,7 @@ def analyse_one(prog, module, clsname, rep):
     for cb in info.callbacks:
         task_fi = cb["resolved"][0]
         clo = tasks.closure_of(info, task_fi)
-        outside = tasks.outside_terms(info, clo)
+        outside = tasks.outside_terms(info, clo, cb)
         taskarg = cb["args"][0]
         evs = tasks.task_events(info, cb)
         rep.analysed.setdefault("task_events", {})[task_fi.fq] = len(evs)
